@@ -137,6 +137,7 @@ Proof.
   - discriminate H.
   - discriminate H.
   - discriminate H.
+  - (* PNegSet: outside the PEG fragment, no evaluation rule *) discriminate H.
 Qed.
 
 (* ---------- monotonicity ---------- *)
